@@ -5,5 +5,6 @@ CONSTANTS
   L = 2
   Periodic = TRUE
   Warms = {0}
+  Sim = FALSE
 CONSTRAINT Leaf
 CHECK_DEADLOCK FALSE
